@@ -6,6 +6,7 @@ import (
 	"fmt"
 	"log"
 	"strings"
+	"sync"
 	"time"
 
 	"github.com/nats-io/nats.go"
@@ -35,6 +36,12 @@ type Store struct {
 	// Pending counts how many points are being buffered by the NATS client
 	metricPendingNodePoint     *client.Metric
 	metricPendingNodeEdgePoint *client.Metric
+
+	// handlers hold inFlight for reading while they run; the store takes it
+	// for writing before it closes the database, so that Run does not return
+	// while a handler is still using the file
+	inFlight sync.RWMutex
+	closed   bool
 
 	chStop        chan struct{}
 	chStopMetrics chan struct{}
@@ -97,17 +104,17 @@ func (st *Store) GetAuthorizer() api.Authorizer {
 func (st *Store) Run() error {
 	nc := st.params.Nc
 	var err error
-	st.subscriptions["nodePoints"], err = nc.Subscribe("p.*", st.handleNodePoints)
+	st.subscriptions["nodePoints"], err = nc.Subscribe("p.*", st.whileOpen(st.handleNodePoints))
 	if err != nil {
 		return fmt.Errorf("Subscribe node points error: %w", err)
 	}
 
-	st.subscriptions["edgePoints"], err = nc.Subscribe("p.*.*", st.handleEdgePoints)
+	st.subscriptions["edgePoints"], err = nc.Subscribe("p.*.*", st.whileOpen(st.handleEdgePoints))
 	if err != nil {
 		return fmt.Errorf("Subscribe edge points error: %w", err)
 	}
 
-	if st.subscriptions["nodes"], err = nc.Subscribe("nodes.*.*", st.handleNodesRequest); err != nil {
+	if st.subscriptions["nodes"], err = nc.Subscribe("nodes.*.*", st.whileOpen(st.handleNodesRequest)); err != nil {
 		return fmt.Errorf("Subscribe node error: %w", err)
 	}
 
@@ -121,19 +128,19 @@ func (st *Store) Run() error {
 		}
 	*/
 
-	if st.subscriptions["auth.user"], err = nc.Subscribe("auth.user", st.handleAuthUser); err != nil {
+	if st.subscriptions["auth.user"], err = nc.Subscribe("auth.user", st.whileOpen(st.handleAuthUser)); err != nil {
 		return fmt.Errorf("Subscribe auth error: %w", err)
 	}
 
-	if st.subscriptions["auth.getNatsURI"], err = nc.Subscribe("auth.getNatsURI", st.handleAuthGetNatsURI); err != nil {
+	if st.subscriptions["auth.getNatsURI"], err = nc.Subscribe("auth.getNatsURI", st.whileOpen(st.handleAuthGetNatsURI)); err != nil {
 		return fmt.Errorf("Subscribe auth error: %w", err)
 	}
 
-	if st.subscriptions["admin.storeVerify"], err = nc.Subscribe("admin.storeVerify", st.handleStoreVerify); err != nil {
+	if st.subscriptions["admin.storeVerify"], err = nc.Subscribe("admin.storeVerify", st.whileOpen(st.handleStoreVerify)); err != nil {
 		return fmt.Errorf("Subscribe dbVerify error: %w", err)
 	}
 
-	if st.subscriptions["admin.storeMaint"], err = nc.Subscribe("admin.storeMaint", st.handleStoreMaint); err != nil {
+	if st.subscriptions["admin.storeMaint"], err = nc.Subscribe("admin.storeMaint", st.whileOpen(st.handleStoreMaint)); err != nil {
 		return fmt.Errorf("Subscribe dbMaint error: %w", err)
 	}
 
@@ -157,9 +164,27 @@ done:
 		}
 	}
 
+	// a handler that is still running (on a goroutine of the NATS client) is
+	// waited for; one that starts later finds the store closed
+	st.inFlight.Lock()
+	st.closed = true
 	st.db.Close()
+	st.inFlight.Unlock()
 
 	return nil
+}
+
+// whileOpen wraps a message handler so that it runs only while the store is
+// open, and so that closing the store waits for it
+func (st *Store) whileOpen(h nats.MsgHandler) nats.MsgHandler {
+	return func(msg *nats.Msg) {
+		st.inFlight.RLock()
+		defer st.inFlight.RUnlock()
+		if st.closed {
+			return
+		}
+		h(msg)
+	}
 }
 
 // Stop the store
